@@ -254,15 +254,19 @@ func genDetCase(c *core.Ctx, i int) detCase {
 		}
 		return treeDetCase(files, "page")
 	case 5: // 2..3 slots passed twice, several undeclared slots
-		names := []string{"zeta", "alpha", "Mid"}
+		names := []string{"zeta", "alpha", "Mid", "beta", "Alpha"}
 		r.Shuffle(len(names), func(a, b int) { names[a], names[b] = names[b], names[a] })
 		var slots []string
 		comp := "<"
-		for k := 0; k < 2+r.Intn(2); k++ {
-			if r.Intn(4) != 0 {
+		once := r.Intn(2) == 0 // every slot passed once: the undeclared ones are the only faults
+		for k := 0; k < 2+r.Intn(3); k++ {
+			if r.Intn(4) != 0 && !(once && k < 2) {
 				comp += "@slot(\"" + names[k] + "\")|"
 			}
-			slots = append(slots, "@slot(\""+names[k]+"\")one@end\n", "@slot(\""+names[k]+"\")two@end\n")
+			slots = append(slots, "@slot(\""+names[k]+"\")one@end\n")
+			if !once {
+				slots = append(slots, "@slot(\""+names[k]+"\")two@end\n")
+			}
 		}
 		r.Shuffle(len(slots), func(a, b int) { slots[a], slots[b] = slots[b], slots[a] })
 		files := map[string]string{
@@ -373,6 +377,25 @@ var c14ProcOps = []struct {
 	{"list page of the kept template for Bob", func() string {
 		out, fe := c14KeptTemplate().String("list", map[string]any{"user": "Bob", "role": "visitor"})
 		return fmt.Sprint("OUT:", out, "|", fe)
+	}},
+	// values that print alike but are not alike; requests whose spelled-out arguments run together alike
+	{"print the slice []any{1, 2}", func() string {
+		return observe(textwire.EvaluateString("{{ v }}|{{ v[0] + 1 }}|{{ v.len() }}", map[string]any{"v": []any{1, 2}}))
+	}},
+	{"print the slice []any{1.0, 2.0}", func() string {
+		return observe(textwire.EvaluateString("{{ v }}|{{ v[0] + 1.0 }}|{{ v.len() }}", map[string]any{"v": []any{1.0, 2.0}}))
+	}},
+	{"print the slice []any{\"1\", \"2\"}", func() string {
+		return observe(textwire.EvaluateString("{{ v }}|{{ v[0] + \"!\" }}|{{ v.len() }}", map[string]any{"v": []any{"1", "2"}}))
+	}},
+	{"print the slice []string{\"1 2\"} and []int{1, 2}", func() string {
+		return observe(textwire.EvaluateString("{{ v.len() }}|{{ w.len() }}|{{ v }}|{{ w }}", map[string]any{"v": []string{"1 2"}, "w": []int{1, 2}}))
+	}},
+	{"repeat 7 twelve times, decimal of 5 with ten places", func() string {
+		return observe(textwire.EvaluateString("{{ \"7\".repeat(12) }}|{{ 5.decimal(\".\", 10) }}|{{ \"ab1\".repeat(1) }}", nil))
+	}},
+	{"repeat 71 twice, 01 zero times, ab eleven times", func() string {
+		return observe(textwire.EvaluateString("{{ \"71\".repeat(2) }}|{{ \"01\".repeat(0) }}|{{ \"ab\".repeat(11) }}", nil))
 	}},
 	// one path, two contents of the same length written with the same modification time
 	{"evaluate note.tw holding its first content", func() string { return c14Rewritten("<b>{{ 2 * 3 }}</b> first") }},
